@@ -139,10 +139,16 @@ def handle (line : String) : Except String Json := do
   | "neg_neg" => pure (eJ (simplifyNegNeg (← getE "e")))
   | "simplify_equality" =>
     pure (eJ (simplifyEquality I SqlglotModel.Generated.C06.addInverseIsSub SqlglotModel.Generated.C06.subInverseIsAdd (← getE "e")))
-  | "simplify_conditionals" => pure (eJ (simplifyConditionals (← getB "pcase") (← getE "e")))
-  | "simplify_coalesce" => pure (eJ (simplifyCoalesce ⟨false, ← getB "cns"⟩ (← getE "e")))
+  | "simplify_conditionals" => pure (eJ (simplifyConditionals (pkOfString (← getS "p")) (← getE "e")))
+  | "simplify_coalesce" => pure (eJ (simplifyCoalesce ⟨false, ← getB "cns"⟩ (pkOfString (← getS "p")) (← getE "e")))
   | "simplify_parens" => pure (eJ (simplifyParens (pkOfString (← getS "p")) (← getE "e")))
   | "flatten" => pure (eJ (flatten1 (← getE "e")))
+  | "helpers" =>
+    let e ← getE "e"
+    let num := numVal? e
+    pure (Json.arr #[Json.bool (isConstant e), Json.bool num.isSome, Json.bool (isNullE e), Json.bool (isZeroE e),
+      Json.bool (isFalseE e), Json.bool (alwaysTrue e), Json.bool (alwaysFalse e), Json.bool (isNonnullConstant e),
+      match num with | some n => Json.num (Lean.JsonNumber.fromInt n) | none => Json.null])
   | "reparse_safe" =>
     pure (Json.bool (reparseSafe (← pkindOfString (← getS "p")) (← (← j.getObjVal? "pos").getNat?) (← pkindOfString (← getS "c"))))
   | "propagate_constants" =>
